@@ -434,7 +434,8 @@ pub fn execute_with(f: &Fam, presented: Option<&[u8]>, extra: &ExecExtra) -> Obs
         ob.http_log = g.log.clone();
         for r in &g.log {
             if let Some((a, b)) = r.parsed {
-                ob.archive_reads.push((a, b - a + 1));
+                // (a reversed range -- bytes=N-(N-1) -- reads nothing; the request itself stays in http_log)
+                ob.archive_reads.push((a, (b + 1).saturating_sub(a)));
             }
         }
         drop(g);
